@@ -158,7 +158,7 @@ class Worker:
 class Check:
     """bookkeeping of one check run: deadline, counters, violations vs known findings, evidence file"""
 
-    def __init__(self, pid, level, argv=None):
+    def __init__(self, pid, level, argv=None, deadlines=(240, 2400)):
         import argparse
         ap = argparse.ArgumentParser()
         ap.add_argument("--tier", default=os.environ.get("VERIF_TIER", "quick"))
@@ -171,7 +171,7 @@ class Check:
         self.noev = a.no_evidence
         self.seed = int(os.environ.get("VERIF_SEED", "0") or 0)
         self.t0 = time.time()
-        dl = a.deadline or float(os.environ.get("VERIF_DEADLINE", "0") or 0) or (240 if self.tier == "quick" else 2400)
+        dl = a.deadline or float(os.environ.get("VERIF_DEADLINE", "0") or 0) or (deadlines[0] if self.tier == "quick" else deadlines[1])
         self.deadline = self.t0 + dl
         self.cov = dict(evaluations=0, distinct_nontrivial=0, rule="", samples=[], exhaustive=True, subspaces={})
         self.assumptions = []
@@ -347,7 +347,7 @@ def blobs_dir():
     d = os.path.join(yvbuild.BUILD, "blobs")
     src = os.path.join(yvbuild.REPO, "tests", "blob.h")
     stamp = os.path.join(d, ".stamp")
-    key = hashlib.sha256(open(src, "rb").read()).hexdigest()
+    key = hashlib.sha256(open(src, "rb").read() + open(os.path.join(H, "blobs.c"), "rb").read()).hexdigest()
     if os.path.exists(stamp) and open(stamp).read() == key:
         return d
     os.makedirs(d, exist_ok=True)
